@@ -3667,20 +3667,31 @@ def init_context(m: types.Model, d: types.Data, ctx: SolverContext | InverseCont
     _update_gradient(m, d, ctx, compact=compact)
 
 
+def _solve_unconstrained(m: types.Model, d: types.Data):
+  """No constraint rows can exist: qacc = qacc_smooth; efc.Ma = M @ qacc is still needed by the implicit-in-velocity integrators."""
+  wp.copy(d.qacc, d.qacc_smooth)
+  d.solver_niter.fill_(0)
+  if m.nv:
+    support.mul_m(m, d, d.efc.Ma, d.qacc)
+
+
 @event_scope
 def solve(m: types.Model, d: types.Data):
   if (m.opt.enableflags & types.EnableBit.SLEEP) and not (m.opt.disableflags & types.DisableBit.ISLAND):
     # Self-contained like the island branch below: rebuild the active-DOF mapping from
     # tree_awake so solve() works when called directly (not only via fwd_acceleration).
     island.update_active_dofs(m, d)
-    solve_compact(m, d)
+    if d.njmax == 0 or m.nv == 0:
+      # no constraint rows can exist: nothing to solve (and the compact kernels cannot be built for njmax == 0)
+      _solve_unconstrained(m, d)
+    else:
+      solve_compact(m, d)
     if m.ntree > 1:
       island.compute_island_mapping(m, d)
     return
 
   if d.njmax == 0 or m.nv == 0:
-    wp.copy(d.qacc, d.qacc_smooth)
-    d.solver_niter.fill_(0)
+    _solve_unconstrained(m, d)
   else:
     ctx = _create_solver_context(m, d)
     _solve(m, d, ctx)
